@@ -8,7 +8,8 @@ from ..engine.flow import Automaton, MayRaise, Runner, State, violation
 from ..engine.match import Spec, loop_doms, residual
 from ..engine.report import Check
 from ..engine.terms import C, Term, implies, mentions, mk_not, show
-from ..engine.walker import Event, swallowed_by, try_inside_loops
+from ..engine.effects import collect_mutations, event_mutation
+from ..engine.walker import MUTATORS, Event, swallowed_by, try_inside_loops
 from .common import CONS, functions_mentioning, short
 
 RP = "skepticoin.networking.remote_peer.ConnectedRemotePeer."
@@ -44,6 +45,8 @@ class RelayAutomaton(Automaton):
         self.lkv = sp.term("self.local_peer.chain_manager.last_known_valid_coinstate")
         self.buffer = ("a", ("a", ("g", DBS), "instance"), "write_buffer")
         self.seen: dict = {}
+        self.sp = sp
+        self._reeval: dict = {}
 
     def initial(self) -> List[State]:
         return [(False, False, False, "no", False, False, False, False, False)]
@@ -92,7 +95,49 @@ class RelayAutomaton(Automaton):
         if not (mentions(ev.term, self.msg)):
             return False
         r, _ = self.mr.event(ev)
+        if r and self._re_evaluation(ev):
+            return False
         return r
+
+    def _re_evaluation(self, ev: Event) -> bool:
+        """The same call on the same operands already completed on every path to this one, outside any try, and nothing in
+        between (nor the call itself) writes to anything reachable from the delivered message: it completes again."""
+        key = ev.seq
+        if key in self._reeval:
+            return self._reeval[key]
+        ok = False
+        evs = self.sp.summ.events
+        for e0 in evs:
+            if e0.seq >= ev.seq:
+                break
+            if e0.kind != "call" or e0.term != ev.term or e0.tries or e0.loops or e0.chain or ev.chain:
+                continue
+            if not {c.term for c in e0.pc} <= {c.term for c in ev.pc}:
+                continue
+            clean = True
+            for b in evs:
+                if b.chain or not (e0.seq <= b.seq <= ev.seq):
+                    continue
+                m = event_mutation(b)
+                if m is not None and mentions(m.root, self.msg):
+                    clean = False
+                    break
+                if b.kind == "call" and mentions(b.term, self.msg):
+                    for t in b.targets:
+                        if t.startswith("new:"):
+                            continue
+                        if any(mu.root[0] in ("v", "e") for mu in collect_mutations(self.ck.walker, t, set())):
+                            clean = False
+                            break
+                    if not b.targets and b.parts and b.parts[0][0] == "a" and b.parts[0][2] in MUTATORS and mentions(b.parts[0][1], self.msg):
+                        clean = False
+                if not clean:
+                    break
+            if clean:
+                ok = True
+                break
+        self._reeval[key] = ok
+        return ok
 
     def on_branch(self, state: State, test: Term, polarity: bool) -> Optional[State]:
         fact = test if polarity else mk_not(test)       # what holds on this branch
